@@ -2,13 +2,36 @@
 # C17: listings agree with the binary they describe (DESIGN.md section 4, C17).
 from layrun import *
 
+def xcmp_listings(ck):
+    """xcmp -S: decode the image at every listed offset and compare instruction, operand and size (concrete comparison per program)"""
+    import tvlib
+    sys.path.insert(0, os.path.join(build.VERIF, 'gen'))
+    import xgen
+    tv = tvlib.TV(); n = 0; bad = 0
+    try:
+        for name, src in xgen.programs(ck.tier, ck.seed):
+            c = tvlib.compile_x(src, tv.workdir)
+            if isinstance(c, str): continue
+            n += 1
+            problems = tvlib.listing_vs_image(c)
+            ck.obligation(not problems, max(1, len(c.entries)))
+            if problems:
+                bad += 1
+                key = f"xcmp-listing:{name}"
+                ck.violation(key, f"xcmp -S listing disagrees with the image: {problems[0]} [{name}]", ck.replay_file(key, {'source': src, 'problems': problems[:5]}), True)
+    finally:
+        tv.close()
+    ck.cov['xcmp_listings_compared'] = n
+    ck.sample({'obligation': 'xcmp -S listing vs image (concrete per program)', 'programs': n, 'disagreeing': bad})
+
 def main():
     ck = Check('C17', 'other')
     L, shapes, results = run_family(ck, 'C17')
+    xcmp_listings(ck)
     ck.assume("assertions are on what emitProgramText prints from (getByteOffset, getSize, getValue of each directive, in program order); the boost::format rendering of these numbers is outside (pinned by the repository's exit_tree test)",
               "PADDING is neither an instruction nor DATA and is exempt; labels (size 0) are exempt",
               "shape set, symbolic immediates, stubs and budgets as in C05",
-              "xcmp -S listings are covered for the translation-validation programs of C01 by a concrete comparison, reported there")
+              "xcmp -S listings: for every program of the C01 generator the image is decoded at each listed offset and compared with the listed instruction, operand and size - a concrete comparison per program, not a solver claim")
     ck.crosscheck()
     ck.finish("Same symbolic runs as C05. For every instruction and DATA directive z3 proves per path that the listed offset equals the offset at which the independent "
               "decoder found its encoding, the listed size equals the bytes it occupies and, for label operands, the listed value equals the operand decoded from the bytes.",
